@@ -136,9 +136,6 @@ func kindOf(v reflect.Value) string {
 // keeps its own name unless a shallower field has it already; then it is
 // qualified with the name of the struct that declares it ("AbstractStep.Opt").
 func fieldsOf(p interface{}) []fld {
-	type lvl struct {
-		v reflect.Value
-	}
 	var out []fld
 	seen := map[string]bool{}
 	cur := []reflect.Value{reflect.ValueOf(p).Elem()}
@@ -354,8 +351,8 @@ func boundaries(bits int, unsigned bool) []int64 {
 	b := []int64{0, 1, -1, 2, 127, 128, -128, -129, 255, 256, 32767, 32768, -32768, -32769, 1 << 23, 1<<23 - 1, -(1 << 23), -(1 << 23) - 1,
 		math.MaxInt32, math.MinInt32}
 	if bits > 32 {
-		b = append(b, math.MaxInt32+1, math.MinInt32-1, 1<<32 - 1, 1 << 32, 1<<39 - 1, 1 << 39, -(1 << 39), -(1 << 39) - 1,
-			1 << 47, 1 << 55, math.MaxInt64, math.MinInt64, math.MaxInt64 - 1, math.MinInt64 + 1, 1234567890123, -987654321098)
+		b = append(b, math.MaxInt32+1, math.MinInt32-1, 1<<32-1, 1<<32, 1<<39-1, 1<<39, -(1 << 39), -(1<<39)-1,
+			1<<47, 1<<55, math.MaxInt64, math.MinInt64, math.MaxInt64-1, math.MinInt64+1, 1234567890123, -987654321098)
 	}
 	return b
 }
@@ -1128,4 +1125,3 @@ func Run(c *core.Ctx) error {
 	c.SetExtra("profilepack_read_bypassed", bypass)
 	return nil
 }
-
